@@ -43,7 +43,7 @@ From RX.Proofs Require Import CharTablesProofs RejectProofs WfParseTok WfParseCh
 From RX.Spec Require CstU CstText CstNs CstFull CstFullS5.
 From RX.Proofs Require CstSoundP CstSoundPRDoc CstSoundPRCor.
 From RX.Spec Require CstFullS4 CstFullS6.
-From RX.Proofs Require KnownFindingsMore KnownFindingsD21 CstSound6P CstSound6 CstSound6U CstSound6uCor CstFullS6Main CstFullRejSem CstFullRejTrace CstFullRejDoc CstFullRejMain CstFullNsRejMain.
+From RX.Proofs Require KnownFindingsMore KnownFindingsD21 CstSound6P CstSound6 CstSound6U CstSound6uCor CstSound6a CstSound6aFinal CstFullS6Main CstFullRejSem CstFullRejTrace CstFullRejDoc CstFullRejMain CstFullNsRejMain.
 Open Scope N_scope.
 
 (* ---- Proofs/CharTablesProofs.v ---- *)
@@ -459,8 +459,20 @@ Print Assumptions C08_parse_sound_and_complete_6u.
 
 End G16.
 
-(* ---- Proofs/KnownFindingsMore.v ---- *)
+(* ---- Proofs/CstSound6aFinal.v ---- *)
 Module G17.
+Import RX.Spec.CstFull. Import RX.Spec.CstFullS5. Import RX.Spec.CstFullS6. Import RX.Proofs.CstSoundP. Import RX.Proofs.CstSound6. Import RX.Proofs.CstSound6U. Import RX.Proofs.CstSound6a. Import RX.Proofs.CstSound6aFinal.
+Theorem C08_parse_sound_fragment_6a1 :
+  forall text opt d,
+  in_fragment_6a1 text = true -> allow_dtd opt = true -> parse text opt = Ok d ->
+  exists c : S6.doc, S6.wf_doc c = true /\ S6.render c = text.
+Proof. exact parse_sound_fragment_6a1. Qed.
+Print Assumptions C08_parse_sound_fragment_6a1.
+
+End G17.
+
+(* ---- Proofs/KnownFindingsMore.v ---- *)
+Module G18.
 Import RX.Proofs.CstNsView. Import RX.Proofs.KnownFindingsMore.
 Theorem C08_d27_refuted :
   exists x : document,
@@ -481,10 +493,10 @@ Theorem C08_d29_refuted :
 Proof. exact d29_refuted. Qed.
 Print Assumptions C08_d29_refuted.
 
-End G17.
+End G18.
 
 (* ---- Proofs/KnownFindingsD21.v ---- *)
-Module G18.
+Module G19.
 Import RX.Spec.CstNs. Import RX.Proofs.NsRejDefs. Import RX.Proofs.NsRejBuild. Import RX.Proofs.NsRejMain. Import RX.Proofs.KnownFindingsD21.
 Theorem C08_d21_refuted :
   exists (c : doc) (d : document),
@@ -511,10 +523,10 @@ Theorem C08_d21_outside_class_variant :
 Proof. exact d21_outside_class_variant. Qed.
 Print Assumptions C08_d21_outside_class_variant.
 
-End G18.
+End G19.
 
 (* ---- Proofs/NsRejMain.v ---- *)
-Module G19.
+Module G20.
 Import CstNs.
 Theorem C08_ns_violation_rejected :
   forall (c : doc) (opt : options),
@@ -527,10 +539,10 @@ Theorem C08_ns_violation_rejected :
 Proof. exact ns_violation_rejected. Qed.
 Print Assumptions C08_ns_violation_rejected.
 
-End G19.
+End G20.
 
 (* ---- Proofs/CstFullNsRejMain.v ---- *)
-Module G20.
+Module G21.
 Import RX.Spec.CstFull. Import RX.Spec.CstFullS4. Import RX.Spec.CstFullS6. Import RX.Proofs.CstNsView. Import RX.Proofs.CstFullS6Main. Import RX.Proofs.NsRejDefs. Import RX.Proofs.NsRejBuild. Import RX.Proofs.CstFullRejSem. Import RX.Proofs.CstFullRejTrace. Import RX.Proofs.CstFullRejDoc. Import RX.Proofs.CstFullRejMain. Import RX.Proofs.CstFullNsRejMain.
 Theorem C08_ns_violation_rejected_full_s6 :
   forall (d : S6.doc) (opt : options) (cT : CstFull.doc bpieces) (tr : list Detector.lop),
@@ -549,4 +561,4 @@ Theorem C08_ns_violation_rejected_full_s6 :
 Proof. exact ns_violation_rejected_full_s6. Qed.
 Print Assumptions C08_ns_violation_rejected_full_s6.
 
-End G20.
+End G21.
